@@ -49,22 +49,32 @@ type c04Case struct {
 
 func (c04) Bounds(tier string) map[string]interface{} {
 	if tier == "thorough" {
-		return map[string]interface{}{"members": 9, "max_blocks": 4, "placements": []string{"onefile", "chain", "star", "star-rev"}}
+		return map[string]interface{}{"members": 9, "max_blocks": 3, "members_for_4_blocks": 8, "placements": []string{"onefile", "chain", "star", "star-rev"}}
 	}
 	return map[string]interface{}{"members": 7, "max_blocks": 3, "placements": []string{"onefile", "chain", "star", "star-rev"}}
 }
 
 func (c04) Cases(tier string, emit func(string, interface{})) {
-	n, k := 7, 3
 	if tier == "thorough" {
-		n, k = 9, 4
+		// 9 members in up to 3 blocks, and 8 members in exactly 4 blocks (9 members in 4 blocks are
+		// 186 480 splits, about half an hour: measured, not affordable next to the other checks)
+		c04Cases(tier, 9, 3, 0, emit)
+		c04Cases(tier, 8, 4, 4, emit)
+		return
 	}
+	c04Cases(tier, 7, 3, 0, emit)
+}
+
+func c04Cases(tier string, n, k, only int, emit func(string, interface{})) {
 	members := make([]int, n)
 	for i := range members {
 		members[i] = i
 	}
 	for _, part := range gen.SetPartitions(n, k) {
 		nb := len(part)
+		if only > 0 && nb != only {
+			continue
+		}
 		if nb == 1 {
 			emit("joined", c04Case{Members: members, Blocks: part, Place: "onefile"})
 			continue
